@@ -139,7 +139,8 @@ def _thrower_kind(ctx: Ctx, fi: FuncInfo, call: ast.Call) -> str | None:
 
 NEEDS = {
     "fromhex": {"ValueError"}, "decode": {"ValueError", "UnicodeError", "UnicodeDecodeError"}, "encode": {"ValueError", "UnicodeError", "UnicodeEncodeError"},
-    "b64": {"ValueError", "binascii.Error", "Error"}, "json": {"ValueError", "json.JSONDecodeError", "JSONDecodeError"},
+    # b64decode of a non-ascii *str* raises a plain ValueError, not binascii.Error: only ValueError covers both
+    "b64": {"ValueError"}, "json": {"ValueError", "json.JSONDecodeError", "JSONDecodeError"},
     "Decimal": {"ArithmeticError", "InvalidOperation", "decimal.InvalidOperation"}, "struct": {"struct.error", "error"},
     "int2": {"ValueError"}, "float": {"ValueError"},
 }
@@ -260,44 +261,46 @@ def rule_bool_total(ctx: Ctx, rep: Report) -> None:
 
 # ---------------------------------------------------------------------------
 def rule_json_boundary(ctx: Ctx, rep: Report) -> None:
-    """C19.json_boundary: from_dict wraps its argument before the first
-    subscript and wraps every list it iterates."""
+    """C19.json_boundary: a function that indexes a parameter by string keys
+    (a JSON object) wraps it with fields_from_json_object before the first
+    subscript, and wraps every list of it that it iterates."""
     rule = "C19.json_boundary"
-    for ci in sorted(ctx.prog.classes.values(), key=lambda c: c.qualname):
-        fd = ci.methods.get("from_dict")
-        if fd is None:
+    for fi in sorted(ctx.prog.functions.values(), key=lambda f: f.qualname):
+        if fi.module.name.startswith(("btclib.hwi", "btclib.fetch")):
             continue
-        params = fd.params()
-        p = params[1] if len(params) > 1 else None
-        if p is None:
-            continue
-        g = ctx.cfg(fd)
-        wraps = [c for c in ctx.calls_to(fd, "btclib.utils.fields_from_json_object") if c.args and norm(c.args[0]) == p]
-        subs = [n for n in own_nodes(fd.node) if isinstance(n, ast.Subscript) and isinstance(n.ctx, ast.Load) and norm(n.value) == p]
-        gets = [n for n in own_nodes(fd.node) if isinstance(n, ast.Call) and isinstance(n.func, ast.Attribute) and norm(n.func.value) == p]
-        if not subs and not gets:
-            continue
-        through = [i for c in wraps for i in g.nodes_containing(c)]
-        targets = [i for s in subs + gets for i in g.nodes_containing(s) if i not in through]
-        ok = bool(wraps) and (not targets or g.path_avoiding(targets, through) is None)
-        rebound = any(isinstance(parent(c), ast.Assign) and norm(parent(c).targets[0]) == p for c in wraps)
-        rep.ob(rule, ci.qualname, ok and rebound, fd.where(),
-               f"{p} = fields_from_json_object({p}, ...) dominates every subscript" if ok and rebound else
-               "a subscript of the raw argument is reachable: a non-dict or a missing key leaves as TypeError/KeyError")
-        # comprehension / loop over a value of the dict goes through list_from_json_array
-        for n in own_nodes(fd.node):
-            it = None
-            if isinstance(n, ast.comprehension):
-                it = n.iter
-            elif isinstance(n, ast.For):
-                it = n.iter
-            if it is None:
-                continue
-            uses = any(isinstance(x, ast.Subscript) and norm(x.value) == p for x in ast.walk(it))
-            if uses:
-                okl = isinstance(it, ast.Call) and call_name(it) == "list_from_json_array"
-                rep.ob(rule, f"{ci.qualname}:iter:{norm(it)[:40]}", okl, fd.where(it),
-                       "iterates list_from_json_array(...)" if okl else "iterates a raw JSON value")
+        ps = set(fi.params())
+        by_param: dict[str, list[ast.AST]] = {}
+        for n in own_nodes(fi.node):
+            if isinstance(n, ast.Subscript) and isinstance(n.ctx, ast.Load) and isinstance(n.value, ast.Name) and n.value.id in ps \
+                    and isinstance(n.slice, ast.Constant) and isinstance(n.slice.value, str):
+                by_param.setdefault(n.value.id, []).append(n)
+            if isinstance(n, ast.Call) and isinstance(n.func, ast.Attribute) and n.func.attr in ("get", "pop") and isinstance(n.func.value, ast.Name) \
+                    and n.func.value.id in ps and n.args and isinstance(n.args[0], ast.Constant) and isinstance(n.args[0].value, str) and n.func.value.id in by_param:
+                by_param[n.func.value.id].append(n)
+        for p, subs in sorted(by_param.items()):
+            g = ctx.cfg(fi)
+            wraps = [c for c in ctx.calls_to(fi, "btclib.utils.fields_from_json_object") if c.args and norm(c.args[0]) == p]
+            through = [i for c in wraps for i in g.nodes_containing(c)]
+            targets = [i for s_ in subs for i in g.nodes_containing(s_) if i not in through]
+            ok = bool(wraps) and (not targets or g.path_avoiding(targets, through) is None)
+            rebound = any(isinstance(parent(c), ast.Assign) and norm(parent(c).targets[0]) == p for c in wraps)
+            rep.ob(rule, f"{fi.qualname}({p})", ok and rebound, fi.where(),
+                   f"{p} = fields_from_json_object({p}, ...) dominates every subscript" if ok and rebound else
+                   f"`{p}[...]` with a string key on the raw argument: a non-dict or a missing key leaves as TypeError/KeyError")
+            # comprehension / loop over a value of the dict goes through list_from_json_array
+            for n in own_nodes(fi.node):
+                it = None
+                if isinstance(n, ast.comprehension):
+                    it = n.iter
+                elif isinstance(n, ast.For):
+                    it = n.iter
+                if it is None:
+                    continue
+                uses = any(isinstance(x, ast.Subscript) and norm(x.value) == p for x in ast.walk(it))
+                if uses:
+                    okl = isinstance(it, ast.Call) and call_name(it) == "list_from_json_array"
+                    rep.ob(rule, f"{fi.qualname}:iter:{norm(it)[:40]}", okl, fi.where(it),
+                           "iterates list_from_json_array(...)" if okl else "iterates a raw JSON value")
     rep.floor(rule, 12)
     # the helper itself refuses a non-mapping and turns a missing key into a library error
     for q in ("btclib.utils.fields_from_json_object", "btclib.utils.list_from_json_array"):
@@ -388,6 +391,15 @@ def rule_recursion(ctx: Ctx, rep: Report) -> None:
         rep.ob(rule, fi.qualname, ok, fi.where(),
                "depth refusal present" if depth_guard else "recurses on a derived (smaller / converted) argument" if narrowed else
                RECURSION_OK.get(fi.qualname, "unbounded self-recursion on its own parameter"))
+        # a depth parameter with a refusal on it must grow on every recursive call
+        for pname in ("depth", "level"):
+            if pname in params and any(pname in norm(t) for t, pol, _ in refs):
+                idx = params.index(pname)
+                for c in rec:
+                    arg = c.args[idx] if len(c.args) > idx else next((k.value for k in c.keywords if k.arg == pname), None)
+                    grows = isinstance(arg, ast.BinOp) and isinstance(arg.op, ast.Add) and norm(arg.left) == pname and isinstance(ctx.fold(arg.right, fi.module), int) and ctx.fold(arg.right, fi.module) >= 1
+                    rep.ob(rule, f"{fi.qualname}:{pname}_grows@{_nth_call(rec, c)}", grows, fi.where(c),
+                           f"recursive call passes {norm(arg) if arg is not None else None}" + ("" if grows else f": the {pname} bound is never reached along this branch (RecursionError on hostile nesting)"))
     if n < 10:
         raise AnalysisError(f"only {n} recursive functions found")
     # the two parsers the property names are iterative
@@ -398,6 +410,47 @@ def rule_recursion(ctx: Ctx, rep: Report) -> None:
             rep.ob(rule, f"{q}:iterative", cyc is None, fi.where(), "no call-graph cycle through it" if cyc is None else f"cycle {cyc}")
 
 
+def _nth_call(calls, c) -> int:
+    return sorted(calls, key=lambda x: (x.lineno, x.col_offset)).index(c)
+
+
+# integer arguments that end in a fixed-width to_bytes: every call site hands over a range-checked value
+TO_BYTES_SINKS = {
+    # callee -> (positions of the int arguments, accepted validators of a Name argument)
+    "btclib.ecc.ssa.challenge_": ((1, 2), {"_x_only_bytes", "_y_even_var", "_is_x_coordinate_var", "bip340_nonce_"}),
+}
+
+
+def rule_to_bytes_range(ctx: Ctx, rep: Report) -> None:
+    """C19.to_bytes_range: an integer that a callee writes with a fixed-width
+    to_bytes is range-checked at every call site (else OverflowError, not an answer)."""
+    rule = "C19.to_bytes_range"
+    for callee, (positions, validators) in TO_BYTES_SINKS.items():
+        for fi, call in sorted(ctx.callers(callee), key=lambda x: (x[0].qualname, x[1].lineno)):
+            g = ctx.cfg(fi)
+            for pos in positions:
+                if len(call.args) <= pos:
+                    continue
+                a = call.args[pos]
+                key = f"{fi.qualname}:{callee.rsplit('.', 1)[1]}#{pos}:{norm(a)}"
+                if isinstance(a, ast.Attribute) and a.attr in ("r",):
+                    rep.ob(rule, key, True, fi.where(call), "the r of a signature validated before use (C03.normalise)")
+                    continue
+                if isinstance(a, ast.Subscript) and isinstance(ctx.fold(a.slice, fi.module), int):
+                    rep.ob(rule, key, True, fi.where(call), "a coordinate of a point")
+                    continue
+                if isinstance(a, ast.Name):
+                    vs = [c for c in own_nodes(fi.node) if isinstance(c, ast.Call) and call_name(c) in validators and any(isinstance(x, ast.Name) and x.id == a.id for arg in c.args for x in ast.walk(arg)) and ctx.unconditional(g, c)]
+                    defs = [n for n in own_nodes(fi.node) if isinstance(n, ast.Assign) and any(a.id in {x.id for x in ast.walk(t) if isinstance(x, ast.Name)} for t in n.targets) and isinstance(n.value, ast.Call) and call_name(n.value) in validators]
+                    through = [i for c in vs for i in g.nodes_containing(c)] + [i for d in defs for i in g.nodes_containing(d.value)]
+                    ok = bool(through) and g.path_avoiding(g.nodes_containing(call), through) is None
+                    rep.ob(rule, key, ok, fi.where(call), f"range-checked by {sorted({call_name(c) for c in vs} | {call_name(d.value) for d in defs})} before the call" if ok else
+                           f"`{a.id}` reaches a fixed-width to_bytes without a range check: an out-of-range integer is an OverflowError, not False")
+                    continue
+                rep.unknown(rule, key, fi.where(call), "argument shape not recognised")
+    rep.floor(rule, 6)
+
+
 RULES = [
     ("C19.raise_classes", rule_raise_classes),
     ("C19.throwers", rule_throwers),
@@ -405,6 +458,7 @@ RULES = [
     ("C19.json_boundary", rule_json_boundary),
     ("C19.bounded_alloc", rule_bounded_alloc),
     ("C19.recursion", rule_recursion),
+    ("C19.to_bytes_range", rule_to_bytes_range),
 ]
 
 CONTROLS = [
@@ -419,6 +473,12 @@ CONTROLS = [
      "edit": lambda ctx: M.sub_expr(ctx, "btclib.ecc.dsa.verify_", lambda n: isinstance(n, ast.Tuple) and "BTClibRuntimeError" in norm(n), "ValueError")},
     {"rule": "C19.json_boundary", "name": "OutPoint.from_dict subscripts the raw argument", "module": "btclib.tx.out_point",
      "edit": lambda ctx: M.sub_expr(ctx, "btclib.tx.out_point.OutPoint.from_dict", lambda n: isinstance(n, ast.Assign) and "fields_from_json_object" in norm(n), "pass")},
+    {"rule": "C19.to_bytes_range", "name": "batch verification drops the key range check", "module": "btclib.ecc.ssa",
+     "edit": lambda ctx: M.sub_expr(ctx, "btclib.ecc.ssa.assert_batch_as_valid_", lambda n: isinstance(n, ast.Expr) and norm(n) == "_x_only_bytes(x_Q, ec)", "pass")},
+    {"rule": "C19.recursion", "name": "descriptor tree depth not incremented on the right branch", "module": "btclib.descriptors.descriptors",
+     "edit": lambda ctx: M.sub_expr(ctx, "btclib.descriptors.descriptors._parse_tree", M.is_text("_parse_tree(branches[1], prv_keys, depth + 1)"), "_parse_tree(branches[1], prv_keys, depth)")},
+    {"rule": "C19.json_boundary", "name": "a bip32 derivation entry is only type-checked", "module": "btclib.bip32.key_origin",
+     "edit": lambda ctx: M.sub_expr(ctx, "btclib.bip32.key_origin._decode_from_bip32_deriv", lambda n: isinstance(n, ast.Assign) and "fields_from_json_object" in norm(n), "pass")},
     {"rule": "C19.bounded_alloc", "name": "parse_taproot_bip32 loses its available-bytes bound", "module": "btclib.psbt.psbt_utils",
      "edit": lambda ctx: M.drop_if(ctx, "btclib.psbt.psbt_utils.parse_taproot_bip32", lambda n: "available" in norm(n.test))},
 ]
